@@ -79,7 +79,9 @@ def _content(ckind, size, seed):
 
 @st.composite
 def _case(draw):
-    base = draw(st.one_of(gen.tame_base, gen.hostile_name(gopher_ok=True, max_size=6)))
+    # (one hostile name in four may hold TAB / CR / LF: such a file is requested through the URL-based forms only)
+    base = draw(st.one_of(gen.tame_base, gen.hostile_name(gopher_ok=True, max_size=6), gen.hostile_name(gopher_ok=True, max_size=6),
+                          gen.hostile_name(gopher_ok=True, max_size=6), gen.hostile_name(gopher_ok=False, max_size=6)))
     if draw(st.integers(0, 11)) == 0:
         # a name in the 'URL:' namespace: listings render such top-level names as links, but the file itself is a document
         # like any other when it is requested (a name cannot contain '://', so it is never a real URL: link)
@@ -347,6 +349,9 @@ def check_case(case, ctx):
         # a URL client may leave RFC 3986 sub-delims, ':' and '@' of a path segment unescaped: second spelling of the path
         lenient = clients.pct(selb, clients._UNRESERVED + b"!$&'()*+,;=:@")
         plan = [(f, None) for f in FORMS]
+        if re.search(rb"[\t\r\n]", selb):
+            plan = [(f, None) for f in FORMS if clients.FORMS[f][1] not in ("gopher", "gplus", "gdollar", "gbang")]
+            ctx.label("name-with-TAB-CR-LF")
         if lenient != clients.pct(selb):
             plan += [(f, lenient) for f in FORMS if clients.FORMS[f][1] not in ("gopher", "gplus", "gdollar", "gbang")]
             ctx.label("lenient-url-spelling")
